@@ -2,9 +2,10 @@
 
     Only statements, each closed by [exact] of a lemma of [Service/Proofs*.v], with
     [Print Assumptions] beneath. *)
+From Irismod Require Import Service.Check.
 From Irismod Require Import Service.Model Service.Proofs Service.ProofsHist Service.ProofsEscrow
   Service.ProofsSched Service.ProofsBatch Service.ProofsLiab Service.ProofsTally Service.ProofsLive
-  Service.ProofsModule Service.ProofsFresh Service.ProofsCallback Service.ProofsSchedule Service.ProofsModuleHist Service.ProofsOutcome.
+  Service.ProofsModule Service.ProofsFresh Service.ProofsCallback Service.ProofsSchedule Service.ProofsModuleHist Service.ProofsOutcome Service.ProofsCheck.
 
 (** Over EVERY history (any list of steps: messages of any kind and content, block ends,
     rate changes, transfers, module calls) from any initial height, time and ledger: the
@@ -235,6 +236,23 @@ Theorem module_context_control :
     end.
 Proof. exact module_context_control_lemma. Qed.
 Print Assumptions module_context_control.
+
+(** ** The model passes its own check ([holds_C08], Service/Check.v), clause by clause.
+    [obs_of univ code newctx cb s] is what the driver would observe of the model state [s].  For
+    EVERY history whose context-creating transactions carry distinct hashes, whatever the checker
+    state ([seen], [tr], [sc]), the previous observation [p] and the step [st]: evaluated on the
+    observation of the state reached, [holds_C08] never answers the clause named.  PARTIAL: see the
+    list of clauses at each theorem; clauses comparing two consecutive observations are not covered
+    unless named. *)
+
+(** clause 9: every active request belongs to the running, current batch of a stored context *)
+Theorem model_passes_C08_clause_9 :
+  forall c steps h0 t0 l0 univ seen fired tr sc p st code nc cb,
+    NoDup (create_txhs steps) ->
+    let s := run c (init h0 t0 l0) steps in
+    holds_C08 seen fired tr sc p st (obs_of univ code nc cb s) <> 9.
+Proof. exact model_passes_C08_clause_9_lemma. Qed.
+Print Assumptions model_passes_C08_clause_9.
 
 (** ** non-vacuity: a history in which one request is answered and its sibling expires; a
     late answer to the expired one and a duplicate answer to the answered one are rejected;
